@@ -89,7 +89,20 @@ func genEntries(r *verifrt.Rand, n int) []verifref.Entry {
 }
 
 func genMeta(r *verifrt.Rand) string {
-	switch r.Intn(5) {
+	switch r.Intn(8) {
+	case 5:
+		// blank lines are skipped wherever they stand: keys follow them
+		return "First: 1\n\nAfterBlank: 2\n\n\nLast: 3\n"
+	case 6:
+		return "\nLeadingBlank: x\nDup: 1\nDup: 2\nTrailing: space \n"
+	case 7:
+		m := stackMeta(r.Intn(100))
+		k := r.Intn(len(m))
+		if j := strings.IndexByte(m[k:], '\n'); j >= 0 {
+			// an extra key after an empty line somewhere inside ordinary metadata
+			return m[:k+j+1] + "\nExtra" + fmt.Sprint(r.Intn(9)) + ": after-blank\n" + m[k+j+1:]
+		}
+		return m
 	case 0:
 		return ""
 	case 1:
